@@ -2,6 +2,7 @@ package main
 
 import (
 	"go/ast"
+	"go/token"
 	"path/filepath"
 	"strings"
 )
@@ -92,5 +93,390 @@ func genCtrl(repo, out string) {
 	l.line("def tearingOrder : Bool := %s", leanBool(tearingOrder))
 	l.line("/-- handleOutputTearingDown destroys only an output that is tearing down with no finalizers -/")
 	l.line("def staleOutputRule : Bool := %s", leanBool(staleOutput))
+	genCtrlTransform(repo, l)
+	genCtrlCleanup(repo, l)
 	l.write(out, ns)
+}
+
+// ---------------------------------------------------------------------------------------------
+// transform.Controller (pkg/controller/generic/transform/controller.go): the decision points of one
+// pass with input finalizers that the machine of Cosi.Model.Transform takes as `Rules`.
+
+// ctrlExitClasses are the constructors of Cosi.Gen.CleanupExit, in declaration order.
+var ctrlExitClasses = []string{"notOwned", "touched", "teardownErr", "notReady", "destroyErr", "destroyOk"}
+
+const (
+	ctrlDelStmt      = "delete(runState.removeInputFinalizers, out.Metadata().ID())"
+	ctrlTeardownStmt = "ready, err = r.Teardown(ctx, out.Metadata())"
+	ctrlDestroyCond  = "err = r.Destroy(ctx, out.Metadata()); err != nil"
+	ctrlTouchedCond  = "_, touched := runState.touchedOutputIDs[out.Metadata().ID()]; touched"
+)
+
+// ctrlExitWalker enumerates, statement by statement, every path through the body of cleanupOutputs' per-output
+// loop. Each path ends at a `continue` or at the end of the body; it is classified by the guard under which it
+// left the main line, and it is recorded whether the path executed `delete(runState.removeInputFinalizers, id)`.
+// An if statement nested inside an already classified branch (e.g. a special case of the Destroy error) keeps
+// that class: all its exits are exits of the class. Any statement the walker does not know makes the table
+// unusable (every exit "keeps" the release: the worst rule).
+type ctrlExitWalker struct {
+	undeleted map[string]bool // class -> some path to this exit does not delete
+	seen      map[string]bool
+	spine     []string // the recognised statements of the main line, in order
+	bad       bool
+	steps     int
+}
+
+func ifCondText(is *ast.IfStmt) string {
+	c := src(is.Cond)
+	if is.Init != nil {
+		c = src(is.Init) + "; " + c
+	}
+
+	return c
+}
+
+func (w *ctrlExitWalker) exit(class string, deleted bool) {
+	w.seen[class] = true
+
+	if !deleted {
+		w.undeleted[class] = true
+	}
+}
+
+// walk follows one path: `label` is "main" on the main line, else the exit class of the branch taken; `stage`
+// is "", "teardown" (after the Teardown call), "checked" (after its err check), "ready" (after the !ready check)
+// or "destroyed" (after the Destroy statement); `spine` is true only on the path that takes no branch.
+func (w *ctrlExitWalker) walk(stmts []ast.Stmt, label string, deleted bool, stage string, spine bool) {
+	w.steps++
+	if w.steps > 4096 {
+		w.bad = true
+
+		return
+	}
+
+	for i, st := range stmts {
+		rest := stmts[i+1:]
+
+		switch x := st.(type) {
+		case *ast.ExprStmt:
+			text := src(x)
+
+			switch {
+			case text == ctrlDelStmt:
+				deleted = true
+			case strings.HasPrefix(text, "logger."):
+			default:
+				w.bad = true
+
+				return
+			}
+		case *ast.BranchStmt:
+			if x.Tok != token.CONTINUE || x.Label != nil || label == "main" {
+				w.bad = true
+
+				return
+			}
+
+			w.exit(label, deleted)
+
+			return
+		case *ast.DeclStmt:
+			if src(x) != "var ready bool" {
+				w.bad = true
+
+				return
+			}
+		case *ast.AssignStmt:
+			text := src(x)
+
+			switch {
+			case text == ctrlTeardownStmt && label == "main" && stage == "":
+				stage = "teardown"
+
+				if spine {
+					w.spine = append(w.spine, "teardown")
+				}
+			case strings.HasPrefix(text, "runState.multiErr = multierror.Append(runState.multiErr, "):
+			default:
+				w.bad = true
+
+				return
+			}
+		case *ast.IfStmt:
+			if x.Else != nil {
+				w.bad = true
+
+				return
+			}
+
+			cond := ifCondText(x)
+			thenLabel, elseStage := "", stage
+
+			switch {
+			case label != "main":
+				// a special case inside a classified branch: same class
+				thenLabel = label
+			case cond == "out.Metadata().Owner() != ctrl.Name()" && stage == "":
+				thenLabel = "notOwned"
+			case cond == "out.Metadata().Phase() != resource.PhaseTearingDown" && stage == "":
+				// the block guarding the touched check: transparent
+				thenLabel = "main"
+			case cond == ctrlTouchedCond && stage == "":
+				thenLabel = "touched"
+			case cond == "err != nil" && stage == "teardown":
+				thenLabel, elseStage = "teardownErr", "checked"
+			case cond == "!ready" && stage == "checked":
+				thenLabel, elseStage = "notReady", "ready"
+			case cond == ctrlDestroyCond && stage == "ready":
+				thenLabel, elseStage = "destroyErr", "destroyed"
+			default:
+				w.bad = true
+
+				return
+			}
+
+			if spine && thenLabel != "main" {
+				w.spine = append(w.spine, thenLabel)
+			}
+
+			// the path that takes the branch: its body, then (if the body falls through) what follows
+			then := append(append([]ast.Stmt{}, x.Body.List...), rest...)
+			w.walk(then, thenLabel, deleted, stage, false)
+
+			if w.bad {
+				return
+			}
+
+			if thenLabel == "main" {
+				// the transparent block: the path that skips it continues below, still on the spine; the
+				// touched check inside belongs to the spine as well
+				for _, inner := range x.Body.List {
+					if is, ok := inner.(*ast.IfStmt); ok && ifCondText(is) == ctrlTouchedCond && spine {
+						w.spine = append(w.spine, "touched")
+					}
+				}
+			}
+
+			stage = elseStage
+		default:
+			w.bad = true
+
+			return
+		}
+	}
+
+	// the end of the loop body
+	switch {
+	case label != "main":
+		w.exit(label, deleted)
+	case stage == "destroyed":
+		w.exit("destroyOk", deleted)
+	default:
+		w.bad = true
+	}
+}
+
+func rangeOver(st ast.Stmt, what string) *ast.RangeStmt {
+	rs, ok := st.(*ast.RangeStmt)
+	if !ok || src(rs.X) != what {
+		return nil
+	}
+
+	return rs
+}
+
+func genCtrlTransform(repo string, l *leanFile) {
+	const recv = "Controller[Input, Output]"
+
+	f := parse(filepath.Join(repo, "pkg/controller/generic/transform/controller.go"))
+
+	// --- cleanupOutputs: the exit table of the per-output loop and the release loop after it
+	w := &ctrlExitWalker{undeleted: map[string]bool{}, seen: map[string]bool{}}
+	shape := false
+
+	if fd := method(f, recv, "cleanupOutputs"); fd != nil && fd.Body != nil && len(fd.Body.List) == 5 {
+		b := fd.Body.List
+		loop := rangeOver(b[2], "outputItems.All()")
+		release := rangeOver(b[3], "runState.removeInputFinalizers")
+
+		if loop != nil && release != nil && src(loop.Key) == "out" &&
+			src(b[0]) == "outputItems, err := safe.ReaderList[Output](ctx, r, outputMetadata)" &&
+			strings.HasPrefix(src(b[1]), "if err != nil { return ") &&
+			src(b[4]) == "return nil" {
+			w.walk(loop.Body.List, "main", false, "", true)
+
+			releaseOK := false
+
+			if len(release.Body.List) == 1 && src(release.Value) == "inMd" {
+				if is, ok := release.Body.List[0].(*ast.IfStmt); ok {
+					releaseOK = ifCondText(is) == "err = r.RemoveFinalizer(ctx, inMd, ctrl.Name()); err != nil"
+				}
+			}
+
+			shape = !w.bad && releaseOK &&
+				strings.Join(w.spine, ",") == "notOwned,touched,teardown,teardownErr,notReady,destroyErr"
+
+			for _, c := range ctrlExitClasses {
+				if !w.seen[c] {
+					shape = false
+				}
+			}
+		}
+	}
+
+	l.line("/-- transform.cleanupOutputs: List outputs; per output: not-owned, touched (unless tearing down), Teardown, its error, not ready, Destroy — in this order, every statement recognised, every exit present; then RemoveFinalizer for what is left in removeInputFinalizers -/")
+	l.line("def cleanupLoopShape : Bool := %s", leanBool(shape))
+	l.line("/-- transform.cleanupOutputs: SOME path to this exit of the loop body does not `delete(runState.removeInputFinalizers, id)` -/")
+	l.line("def cleanupExitKeepsRelease : CleanupExit → Bool")
+
+	for _, c := range ctrlExitClasses {
+		l.line("  | .%s => %s", c, leanBool(!shape || w.undeleted[c]))
+	}
+
+	// --- processInputs: tearing-down inputs are handed to reconcileTearingDownInput; for the others the
+	// finalizer is added (failure → continue) before Modify
+	finFirst := false
+	dispatch := false
+
+	if fd := method(f, recv, "processInputs"); fd != nil && fd.Body != nil {
+		var loop *ast.RangeStmt
+
+		for _, st := range fd.Body.List {
+			if rs := rangeOver(st, "inputItems.All()"); rs != nil {
+				loop = rs
+			}
+		}
+
+		if loop != nil && !strings.Contains(src(fd.Body), "removeInputFinalizers") {
+			iTD, iTouched, iFin, iMod, writesBefore := -1, -1, -1, -1, false
+
+			for i, st := range loop.Body.List {
+				s := src(st)
+
+				switch {
+				case strings.HasPrefix(s, "if !ctrl.options.ignoreTearingDownInputs && in.Metadata().Phase() == resource.PhaseTearingDown { ctrl.reconcileTearingDownInput(ctx, r, logger, runState, in, mappedOut)") &&
+					strings.HasSuffix(s, "continue }"):
+					iTD = i
+				case s == "runState.touchedOutputIDs[mappedOut.Metadata().ID()] = struct{}{}":
+					iTouched = i
+				case strings.HasPrefix(s, "if ctrl.options.inputFinalizers { if in.Metadata().Finalizers().Add(ctrl.Name()) { if err = r.AddFinalizer(ctx, in.Metadata(), ctrl.Name()); err != nil { runState.multiErr = multierror.Append(runState.multiErr, err) continue }"):
+					iFin = i
+				case strings.HasPrefix(s, "if err = safe.WriterModify(ctx, r, mappedOut, "):
+					if iMod < 0 {
+						iMod = i
+					}
+				case strings.Contains(s, "reconcileTearingDownInput"):
+					iTD = -2
+				default:
+					if iMod < 0 && (containsCall(st, "safe.WriterModify") || containsCall(st, "r.Modify") || containsCall(st, "r.Create") || containsCall(st, "r.Update")) {
+						writesBefore = true
+					}
+				}
+			}
+
+			dispatch = iTD >= 0 && iTouched > iTD
+			finFirst = dispatch && iFin > iTouched && iMod > iFin && !writesBefore
+		}
+	}
+
+	l.line("/-- transform.processInputs: for an input not handed to reconcileTearingDownInput, AddFinalizer (failure → continue) precedes Modify -/")
+	l.line("def transformFinBeforeModify : Bool := %s", leanBool(finFirst))
+
+	// --- reconcileTearingDownInput: the only place that enters an input into removeInputFinalizers
+	source := ".unknown"
+
+	if fd := method(f, recv, "reconcileTearingDownInput"); fd != nil && fd.Body != nil && len(fd.Body.List) == 4 && dispatch {
+		b := fd.Body.List
+		s2 := src(b[2])
+
+		if src(b[0]) == "if !ctrl.options.inputFinalizers { return }" &&
+			src(b[1]) == "if in.Metadata().Finalizers().Add(ctrl.Name()) { return }" &&
+			strings.HasPrefix(s2, "if err := ctrl.finalizerRemovalFunc(ctx, r, logger, in); err != nil {") &&
+			strings.HasSuffix(s2, "runState.touchedOutputIDs[mappedOut.Metadata().ID()] = struct{}{} return }") &&
+			!strings.Contains(s2, "removeInputFinalizers") &&
+			src(b[3]) == "runState.removeInputFinalizers[mappedOut.Metadata().ID()] = in.Metadata()" {
+			source = ".tornDownFinRemovalOk"
+		}
+	}
+
+	// nothing else in the file writes the map
+	writes := 0
+
+	for _, d := range f.Decls {
+		fd, ok := d.(*ast.FuncDecl)
+		if !ok || fd.Body == nil {
+			continue
+		}
+
+		ast.Inspect(fd.Body, func(n ast.Node) bool {
+			if as, ok := n.(*ast.AssignStmt); ok {
+				for _, lhs := range as.Lhs {
+					if strings.Contains(src(lhs), "removeInputFinalizers") {
+						writes++
+					}
+				}
+			}
+
+			return true
+		})
+	}
+
+	if writes != 1 {
+		source = ".unknown"
+	}
+
+	l.line("/-- transform: where an input is entered into removeInputFinalizers -/")
+	l.line("def transformReleaseSource : ReleaseSource := %s", source)
+}
+
+// ---------------------------------------------------------------------------------------------
+// cleanup.Controller (pkg/controller/generic/cleanup/cleanup.go): Combine's loop and processInput's switch.
+
+func genCtrlCleanup(repo string, l *leanFile) {
+	f := parse(filepath.Join(repo, "pkg/controller/generic/cleanup/cleanup.go"))
+
+	combine := ".unknown"
+
+	if fd := method(f, "combinedHandler[I]", "FinalizerRemoval"); fd != nil && fd.Body != nil && len(fd.Body.List) == 2 {
+		if rs := rangeOver(fd.Body.List[0], "c.handlers"); rs != nil && src(rs.Value) == "handler" && len(rs.Body.List) == 2 &&
+			src(rs.Body.List[0]) == "err := handler.FinalizerRemoval(ctx, runtime, logger, input)" &&
+			src(rs.Body.List[1]) == "if err != nil { return err }" &&
+			src(fd.Body.List[1]) == "return nil" {
+			combine = ".firstNonNil"
+		}
+	}
+
+	release := ".unknown"
+
+	if fd := method(f, "Controller[I]", "processInput"); fd != nil && fd.Body != nil {
+		var clause *ast.CaseClause
+
+		ast.Inspect(fd.Body, func(n ast.Node) bool {
+			if cc, ok := n.(*ast.CaseClause); ok && len(cc.List) == 1 && src(cc.List[0]) == "resource.PhaseTearingDown" {
+				clause = cc
+			}
+
+			return true
+		})
+
+		if clause != nil && len(clause.Body) == 5 && strings.Count(src(fd.Body), "RemoveFinalizer(") == 1 {
+			b := clause.Body
+			sw := src(b[2])
+
+			if src(b[0]) == "if !inputElem.Metadata().Finalizers().Has(ctrl.Name()) { return nil }" &&
+				src(b[1]) == "err := ctrl.handler.FinalizerRemoval(ctx, r, logger, inputElem)" &&
+				strings.HasPrefix(sw, "switch { case xerrors.TagIs[SkipReconcileTag](err): return nil case err != nil: return fmt.Errorf(") &&
+				strings.HasPrefix(src(b[3]), "if err := r.RemoveFinalizer(ctx, inputElem.Metadata(), ctrl.Name()); err != nil { return ") &&
+				strings.HasPrefix(src(b[4]), "l.Info(") {
+				if s, ok := b[2].(*ast.SwitchStmt); ok && s.Tag == nil && s.Init == nil && len(s.Body.List) == 2 {
+					release = ".onlyOnNil"
+				}
+			}
+		}
+	}
+
+	l.line("/-- cleanup.combinedHandler.FinalizerRemoval: the loop returns the first non-nil sub-handler result, nil at the end -/")
+	l.line("def cleanupCombine : CombineRule := %s", combine)
+	l.line("/-- cleanup.processInput, tearing-down input with the finalizer: tagged → return nil, error → return it, nil → RemoveFinalizer -/")
+	l.line("def cleanupRelease : CleanupReleaseRule := %s", release)
 }
